@@ -5,6 +5,7 @@ package main
 import (
 	"fmt"
 	"math/rand"
+	"regexp"
 	"strings"
 )
 
@@ -19,6 +20,7 @@ type routerKnobs struct {
 	rawPaths   bool // arbitrary byte strings as paths, odd methods
 	repeat     bool // every request issued twice
 	interleave bool // registrations, Headers() and requests interleaved
+	autoHeadPct int // chance that the session configures AutoHead (and registers through the verb methods Get, Post, …)
 	sessions   [2]int
 	small      [2]int // exhaustive small scope: max routes per set, max path segments (0 = off), quick / thorough pairs below
 	smallT     [2]int
@@ -35,7 +37,7 @@ func init() {
 			genDslSlice(r, emit, n)
 		}
 	}
-	gens["C01"] = withDsl(routerGen(routerKnobs{prof: profDefault, routesMax: 8, reqs: 14, hdrPct: 8, treq: true,
+	gens["C01"] = withDsl(routerGen(routerKnobs{prof: profDefault, routesMax: 8, reqs: 14, hdrPct: 8, treq: true, autoHeadPct: 10,
 		sessions: [2]int{1500, 40000}, small: [2]int{2, 3}, smallT: [2]int{3, 4}}), 250, 4000)
 	c02router := routerGen(routerKnobs{prof: profBinds, routesMax: 6, reqs: 14, hdrPct: 5, treq: true,
 		sessions: [2]int{1500, 40000}})
@@ -66,11 +68,11 @@ func init() {
 	}
 	gens["C08"] = withDsl(routerGen(routerKnobs{prof: profDefault, routesMax: 12, reqs: 8, hdrPct: 0, treq: false,
 		sessions: [2]int{2500, 60000}}), 250, 4000)
-	gens["C09"] = routerGen(routerKnobs{prof: profStaticMix, routesMax: 5, reqs: 14, hdrPct: 75, reHdr: true, treq: true,
+	gens["C09"] = routerGen(routerKnobs{prof: profStaticMix, routesMax: 5, reqs: 14, hdrPct: 75, reHdr: true, treq: true, autoHeadPct: 15,
 		sessions: [2]int{1500, 40000}})
-	gens["C10"] = routerGen(routerKnobs{prof: profStatic, routesMax: 7, reqs: 14, hdrPct: 30, reHdr: true, treq: true, interleave: true,
+	gens["C10"] = routerGen(routerKnobs{prof: profStatic, routesMax: 7, reqs: 14, hdrPct: 30, reHdr: true, treq: true, interleave: true, autoHeadPct: 35,
 		sessions: [2]int{1500, 40000}})
-	gens["C12"] = routerGen(routerKnobs{prof: profBinds, routesMax: 4, reqs: 6, hdrPct: 0, urlOps: 10, treq: false,
+	gens["C12"] = routerGen(routerKnobs{prof: profBinds, routesMax: 4, reqs: 6, hdrPct: 0, urlOps: 10, treq: false, autoHeadPct: 10,
 		sessions: [2]int{1500, 40000}})
 }
 
@@ -120,21 +122,221 @@ func hdrFields(r *rand.Rand) string {
 	return " " + strings.Join(fs, " ")
 }
 
-func hdrOp(r *rand.Rand, hid int) string {
-	n := r.Intn(3)
+// hdrCon: one constraint of a Headers() call, as the generator remembers it for the requests that follow
+type hdrCon struct{ canon, expr string }
+
+// hdrOpCons returns the HDR line and the constraint set it installs (nil, false when an expression does not compile: the
+// call panics and the route keeps what it had).
+func hdrOpCons(r *rand.Rand, hid int) (string, []hdrCon, bool) {
+	n := r.Intn(4)
 	if r.Intn(4) != 0 && n == 0 {
 		n = 1
 	}
 	parts := []string{fmt.Sprintf("HDR %d", hid)}
+	byRaw := map[string]hdrCon{}
+	var raws []string
+	ok := true
 	for i := 0; i < n; i++ {
 		name := pick(r, hdrNames)
 		e := pick(r, hdrExprs)
 		if r.Intn(40) == 0 {
 			e = "("
 		}
+		if _, err := hdrRegexp(e); err != nil {
+			ok = false
+		}
 		parts = append(parts, hx(name), hx(canonHdr(name)), hx(e))
+		if _, seen := byRaw[name]; !seen {
+			raws = append(raws, name)
+		}
+		byRaw[name] = hdrCon{canonHdr(name), e} // the same raw name again replaces the expression
 	}
-	return strings.Join(parts, " ")
+	if !ok {
+		return strings.Join(parts, " "), nil, false
+	}
+	cons := []hdrCon{}
+	for _, raw := range raws {
+		cons = append(cons, byRaw[raw])
+	}
+	return strings.Join(parts, " "), cons, true
+}
+
+func hdrOp(r *rand.Rand, hid int) string {
+	line, _, _ := hdrOpCons(r, hid)
+	return line
+}
+
+var hdrRegexps = map[string]*regexp.Regexp{}
+
+func hdrRegexp(e string) (*regexp.Regexp, error) {
+	if re, ok := hdrRegexps[e]; ok {
+		return re, nil
+	}
+	re, err := regexp.Compile(e)
+	if err == nil {
+		hdrRegexps[e] = re
+	}
+	return re, err
+}
+
+// more values than hdrVals for the requests aimed at a constrained route: what clients really send, next to the small
+// alphabet the expressions of hdrExprs speak about
+var hdrValsWide = []string{"v", "vv", "a", "7", "xvx", "b", "x-x", "V", "A", "websocket", "WebSocket", "42", "vx", "vvx", "xax",
+	"curl/8.5", "s3cr3t", "abc", "text/html", "x x", "2024", "Vv"}
+
+// satisfying picks a non-empty value that every one of the expressions finds (any value when there is none in the pool).
+func satisfying(r *rand.Rand, exprs []string) string {
+	for _, i := range r.Perm(len(hdrValsWide)) {
+		v, ok := hdrValsWide[i], true
+		for _, e := range exprs {
+			if re, err := hdrRegexp(e); err != nil || !re.MatchString(v) {
+				ok = false
+			}
+		}
+		if ok {
+			return v
+		}
+	}
+	return pick(r, hdrValsWide)
+}
+
+// reqMethodOf: a request method under which a registration with this method list can be reached
+func reqMethodOf(r *rand.Rand, ms string) string {
+	ms = strings.TrimPrefix(strings.TrimPrefix(ms, "combo:"), "verb:")
+	if ms == "*" {
+		return pick(r, allMethods)
+	}
+	m := strings.ToUpper(strings.TrimSpace(pick(r, strings.Split(ms, ","))))
+	for _, k := range allMethods {
+		if k == m {
+			return m
+		}
+	}
+	return "GET"
+}
+
+// hdrHistoryReqs: requests aimed at ONE header-constrained route, as a little history on the same method and path —
+//   1. a request every constraint of the route accepts (values looked for with Go's regexp in a pool),
+//   2. the same request with the accepted values MOVED: rotated among the constrained headers, or one of them replaced by
+//      a value that an earlier request of the session carried (under whatever name), or by an arbitrary one,
+//   3. the first request once more.
+// Whether a request is admitted depends on the route's constraints and the request's own (header, value) pairs only —
+// not on which values were accepted before, under this header or another one, by this route or another one.
+func hdrHistoryReqs(r *rand.Rand, k routerKnobs, emit Emit, rt gRoute, ms string, cons []hdrCon, seen *[]string) {
+	method := reqMethodOf(r, ms)
+	path := "/" + strings.Join(rt.instance(r), "/")
+	var names []string
+	exprs := map[string][]string{}
+	for _, c := range cons {
+		if _, ok := exprs[c.canon]; !ok {
+			names = append(names, c.canon)
+		}
+		exprs[c.canon] = append(exprs[c.canon], c.expr)
+	}
+	vals := make([]string, len(names))
+	for i, n := range names {
+		vals[i] = satisfying(r, exprs[n])
+	}
+	fields := func(vs []string) string {
+		var fs []string
+		for i, n := range names {
+			fs = append(fs, hx(n)+"="+hx(vs[i]))
+		}
+		if r.Intn(3) == 0 { // a header the route says nothing about
+			fs = append(fs, hx("X-Other")+"="+hx(pick(r, hdrValsWide)))
+		}
+		if len(fs) == 0 {
+			return ""
+		}
+		return " " + strings.Join(fs, " ")
+	}
+	send := func(h string) {
+		emit("REQ %s %s%s", hx(method), hx(path), h)
+		if k.treq {
+			emit("TREQ %s %s%s", hx(method), hx(path), h)
+		}
+	}
+	first := fields(vals)
+	send(first)
+	moved := append([]string(nil), vals...)
+	switch c := r.Intn(4); {
+	case len(moved) == 0:
+	case c < 2 && len(moved) > 1:
+		sh := 1 + r.Intn(len(moved)-1)
+		for i := range moved {
+			moved[i] = vals[(i+sh)%len(vals)]
+		}
+	case c < 3 && len(*seen) > 0:
+		moved[r.Intn(len(moved))] = (*seen)[r.Intn(len(*seen))]
+	default:
+		moved[r.Intn(len(moved))] = pick(r, hdrValsWide)
+	}
+	send(fields(moved))
+	send(first)
+	*seen = append(*seen, vals...)
+}
+
+// slashSession: routes of the suite's own profile spelled with and without a trailing slash (one of the two forms, or
+// both as the two different routes they are), then for every registered form an instance of it and the SAME path with
+// the trailing slash toggled. "/docs/" has one more (empty) final segment than "/docs": neither admits the other's path,
+// whatever the style of the segments before — static routes (shortcut table and tree) included.
+func slashSession(r *rand.Rand, k routerKnobs, emit Emit) {
+	emit("NEW router")
+	prof := *k.prof
+	if prof.maxSegs > 3 {
+		prof.maxSegs = 3
+	}
+	id := 0
+	type reg struct {
+		rt gRoute
+		m  string
+	}
+	var regs []reg
+	n := 2 + r.Intn(3)
+	for i := 0; i < n; i++ {
+		rt := genRoute(r, &prof)
+		bare := rt
+		if l := len(rt.segs); l > 1 && len(rt.segs[l-1].elems) == 0 {
+			bare = gRoute{segs: rt.segs[:l-1 : l-1]}
+		}
+		forms := []gRoute{bare}
+		if !bare.segs[len(bare.segs)-1].optional {
+			slashed := gRoute{segs: append(bare.segs[:len(bare.segs):len(bare.segs)], gSeg{inst: constInst("")})}
+			switch r.Intn(10) {
+			case 0, 1, 2:
+			case 3, 4, 5, 6:
+				forms = []gRoute{slashed}
+			case 7, 8:
+				forms = []gRoute{bare, slashed}
+			default:
+				forms = []gRoute{slashed, bare}
+			}
+		}
+		m := "GET"
+		if r.Intn(4) == 0 {
+			m = pick(r, []string{"POST", "HEAD", "*", "GET,POST"})
+		}
+		for _, f := range forms {
+			t := f.text()
+			emit("ADD %d %s %s %s", id, m, hx(t), wireOfText(t))
+			id++
+			regs = append(regs, reg{f, m})
+		}
+	}
+	r.Shuffle(len(regs), func(i, j int) { regs[i], regs[j] = regs[j], regs[i] })
+	for _, g := range regs {
+		segs := g.rt.instance(r)
+		m := reqMethodOf(r, g.m)
+		for _, p := range []string{"/" + strings.Join(segs, "/"), "/" + strings.Join(toggleTrailingSlash(append([]string(nil), segs...)), "/")} {
+			emit("REQ %s %s", hx(m), hx(p))
+			if k.treq {
+				emit("TREQ %s %s", hx(m), hx(p))
+			}
+			if k.rawPaths {
+				emit("IREQ %s %s", hx(m), hx(p))
+			}
+		}
+	}
 }
 
 func routerGen(k routerKnobs) func(r *rand.Rand, tier string, emit Emit) {
@@ -269,14 +471,53 @@ func routerSession1(r *rand.Rand, k routerKnobs, emit Emit) {
 		deepFamilySession(r, k, emit)
 		return
 	}
+	if k.urlOps == 0 && r.Intn(20) == 0 {
+		slashSession(r, k, emit)
+		return
+	}
 	emit("NEW router")
 	n := 1 + r.Intn(k.routesMax)
 	var routes []gRoute
 	var hids []int
 	var names []string
+	var mss []string           // the method list of every registration
+	cons := map[int][]hdrCon{} // the constraint set every route carries at this point of the session (non-empty ones only)
+	var seenVals []string      // header values that requests aimed at constrained routes carried so far
+	// AutoHead: configured before the first registration, and now and then switched in the middle of the session; while
+	// the session uses it, single-method registrations go through the verb methods (f.Get, f.Post, …) half of the time
+	verbs := r.Intn(100) < k.autoHeadPct
+	autoHead := false
+	if verbs && r.Intn(5) != 0 {
+		autoHead = true
+		emit("AUTOHEAD 1")
+	}
+	hdr := func(hid int) {
+		line, cs, ok := hdrOpCons(r, hid)
+		emit("%s", line)
+		if ok {
+			delete(cons, hid)
+			if len(cs) > 0 {
+				cons[hid] = cs
+			}
+		}
+	}
 	emitReq := func() {
+		if len(cons) > 0 && r.Intn(5) == 0 {
+			var cands []int
+			for _, h := range hids {
+				if len(cons[h]) > 0 {
+					cands = append(cands, h)
+				}
+			}
+			h := cands[r.Intn(len(cands))]
+			hdrHistoryReqs(r, k, emit, routes[h], mss[h], cons[h], &seenVals)
+			return
+		}
 		var path, method string
 		method = pick(r, reqMethods)
+		if verbs && r.Intn(4) == 0 {
+			method = "HEAD"
+		}
 		switch c := r.Intn(20); {
 		case len(routes) > 0 && c < 2:
 			// the route's own text as a literal path (route syntax such as '?' inside a path)
@@ -387,13 +628,25 @@ func routerSession1(r *rand.Rand, k routerKnobs, emit Emit) {
 			i := r.Intn(len(text) + 1)
 			text = text[:i] + pick(r, []string{",", ";", "=", "!", "~", "@", "&", "'", "$", "%", " ", "+", "*", "(", ")", "|", "^", "\\", "\"", "<", "#"}) + text[i:]
 		}
+		if verbs {
+			if r.Intn(12) == 0 {
+				autoHead = !autoHead
+				emit("AUTOHEAD %d", map[bool]int{false: 0, true: 1}[autoHead])
+			}
+			for _, v := range allMethods {
+				if ms == v && r.Intn(2) == 0 {
+					ms = "verb:" + ms
+				}
+			}
+		}
 		emit("ADD %d %s %s %s", i, ms, hx(text), wireOfText(text))
 		routes = append(routes, rt)
 		hids = append(hids, i)
+		mss = append(mss, ms)
 		if r.Intn(100) < k.hdrPct {
-			emit("%s", hdrOp(r, i))
+			hdr(i)
 			if k.reHdr && r.Intn(2) == 0 {
-				emit("%s", hdrOp(r, i))
+				hdr(i)
 			}
 		}
 		if k.urlOps > 0 && r.Intn(2) == 0 {
@@ -407,7 +660,7 @@ func routerSession1(r *rand.Rand, k routerKnobs, emit Emit) {
 	}
 	for j := 0; j < k.reqs; j++ {
 		if k.reHdr && len(hids) > 0 && r.Intn(8) == 0 {
-			emit("%s", hdrOp(r, hids[r.Intn(len(hids))]))
+			hdr(hids[r.Intn(len(hids))])
 		}
 		emitReq()
 	}
